@@ -149,7 +149,7 @@ public:
     std::string received; std::size_t sent = 0; bool saw_eof = false; bool connected = false; std::string err;
     std::atomic<bool> done{false};
     // TLS on the data connection (server side)
-    SSL_CTX *tls_ctx = nullptr, *tls_ctx_other = nullptr; bool tls = false; bool require_reuse = false; bool reused = false; bool tls_ok = false;
+    SSL_CTX *tls_ctx = nullptr, *tls_ctx_other = nullptr; bool tls = false; bool require_reuse = false; bool reused = false; bool tls_ok = false; bool saw_close_notify = false;
 
     ~data_peer() { finish(); close_listener(); }
 
@@ -195,7 +195,7 @@ public:
     void start(const data_action & act)
     {
         finish();
-        received.clear(); sent = 0; saw_eof = false; connected = false; err.clear(); done = false; reused = false; tls_ok = false;
+        received.clear(); sent = 0; saw_eof = false; connected = false; err.clear(); done = false; reused = false; tls_ok = false; saw_close_notify = false;
         bool passive = lfd >= 0 && !this->target;     // the client's last word decides: after PORT / EPRT the peer connects, whatever the script opened
         std::optional<sockaddr_storage> target = this->target; socklen_t target_len = this->target_len;
         worker = std::thread([this, act, passive, target, target_len] {
@@ -256,7 +256,8 @@ public:
                     {
                         if (act.limit >= 0 && static_cast<long long>(received.size()) >= act.limit) break;
                         ssize_t r = ssl ? SSL_read(ssl, buf, sizeof buf) : ::recv(fd, buf, sizeof buf, 0);
-                        if (r == 0 || (ssl && r < 0 && SSL_get_error(ssl, static_cast<int>(r)) == SSL_ERROR_ZERO_RETURN)) { saw_eof = true; break; }
+                        if (ssl && r <= 0 && SSL_get_error(ssl, static_cast<int>(r)) == SSL_ERROR_ZERO_RETURN) { saw_eof = true; saw_close_notify = true; break; }
+                        if (r == 0) { saw_eof = true; break; }
                         if (r < 0) { err = "recv-failed"; break; }
                         received.append(buf, static_cast<std::size_t>(r));
                     }
